@@ -38,7 +38,9 @@ func (e *Engine) VerifyFunction(fn *ssa.Function, con *Contract) (err error) {
 			return fmt.Errorf("%s: contract names loop %d but the function has %d loops (contract-target-missing)", x.short, cl.Loop, len(x.hdrList))
 		}
 	}
-	e.funcsDone = append(e.funcsDone, x.short)
+	if !e.passConc {
+		e.funcsDone = append(e.funcsDone, x.short)
+	}
 	return nil
 }
 
@@ -137,6 +139,9 @@ func (x *fnCtx) explore() {
 // vacuityCheck records a satisfiability obligation: the assumptions must be consistent.
 func (x *fnCtx) vacuityCheck(st *State, what string) {
 	e := x.eng
+	if e.passConc {
+		what = "conc." + what
+	}
 	name := fmt.Sprintf("%s/%s/vacuity#%s", e.prop, x.short, what)
 	if _, ok := e.obls[name]; ok {
 		return
@@ -569,9 +574,11 @@ func (x *fnCtx) builtin(st *State, fr *Frame, in ssa.Instruction, b *ssa.Builtin
 		return scalar(rt, n)
 	case "delete":
 		m, k := args[0], args[1]
-		if len(k.L) == 1 {
-			x.lockCheckMap(st, fr, in, m, true)
-			x.mapDelete(st, m, k.L[0])
+		x.lockCheckMap(st, fr, in, m, true)
+		if mt, ok := m.T.Underlying().(*types.Map); ok {
+			if _, ok2 := mapSorts(mt); ok2 {
+				x.mapDelete(st, m, mapKey(x.coerce(k, mt.Key())))
+			}
 		}
 		return nil
 	case "close":
